@@ -234,6 +234,7 @@ class Var:
                 val = val.absolute_url()
 
         __traceback_info__ = name, val, args
+        tainted = isinstance(val, TaintedString)
 
         if 'null' in args and not val and val != 0:
             # check for null (false but not zero, including None, [], '')
@@ -342,6 +343,12 @@ class Var:
 
         if isinstance(val, TaintedString):
             val = val.quoted()
+        elif tainted and isinstance(val, str) and '<' in val:
+            # newline_to_br already quoted the untrusted value (and added
+            # its own <br /> tags); a later url_unquote must not be able
+            # to bring a '<' back.
+            val = '<br />'.join(
+                [part.replace('<', '&lt;') for part in val.split('<br />')])
 
         return val
 
